@@ -3,7 +3,13 @@ import Aiortc.Lemmas.CloseInv
 namespace Aiortc.Lemmas.Close
 open Aiortc.Model.Close
 
-/-- only `inflight`, `auto`, `waiters` differ -/
+theorem free_lt {s : State} {k : Nat} (h : s.free k = true) : k < s.tpts.length := by
+  unfold State.free at h
+  rcases Nat.lt_or_ge k s.tpts.length with h' | h'
+  · exact h'
+  · rw [List.getElem?_eq_none h'] at h; simp at h
+
+/-- only `inflight`, `auto`, `waiters`, `tset` differ -/
 theorem inv_scalar {s s' : State} (hI : Inv s) (h1 : s'.trxs = s.trxs) (h2 : s'.tpts = s.tpts) (h3 : s'.sctp = s.sctp)
     (h4 : s'.conns = s.conns) (h5 : s'.closed = s.closed) (h6 : s'.prog = s.prog) (h7 : s'.closeDone = s.closeDone)
     (h8 : s'.sigClosed = s.sigClosed) (h9 : s'.iceClosed = s.iceClosed) (h10 : s'.connClosed = s.connClosed)
@@ -168,6 +174,15 @@ theorem trxStep_done {t t' : Trx} {a : TrxAct} (h : trxStep false t a = some t')
     · injection h with h; subst h
       exact ⟨id, id⟩
     · simp at h
+  | cancel w =>
+    simp only [trxStep] at h
+    split at h
+    · rename_i hs
+      injection h with h; subst h
+      have hq : ∀ r : Run, r.cancel.quiet = r.quiet := by
+        intro r; unfold Run.cancel; split <;> simp_all [Run.quiet]
+      cases w <;> simp only [Trx.get, Trx.set, rcvDone, Trx.sndQuiet, hq] <;> exact ⟨id, id⟩
+    · simp at h
 
 theorem trxStep_tpt {live : Bool} {t t' : Trx} {a : TrxAct} (h : trxStep live t a = some t') (ha : ∀ k, a ≠ .assign k) :
     t'.tpt = t.tpt := by
@@ -177,6 +192,11 @@ theorem trxStep_tpt {live : Bool} {t t' : Trx} {a : TrxAct} (h : trxStep live t 
     simp only [trxStep, Option.map_eq_some_iff] at h
     obtain ⟨r, -, rfl⟩ := h
     cases w <;> simp [Trx.set]
+  | cancel w =>
+    simp only [trxStep] at h
+    split at h
+    · injection h with h; subst h; cases w <;> simp [Trx.set]
+    · simp at h
   | sndStart | rcvStart | decoderStop | mkTrack =>
     simp only [trxStep] at h
     first
@@ -256,7 +276,7 @@ theorem inv_trx_assign {s s' : State} {i k : Nat} (hI : Inv s) (h : s.step (.trx
           · intro ins hin
             have := hI.valid ins hin
             cases ins <;> simpa [Instr.valid, State.setTrx] using this
-          · exact ⟨forall_set hI.tptOk.1 hk, hI.tptOk.2⟩
+          · exact ⟨forall_set hI.tptOk.1 (free_lt hk), hI.tptOk.2⟩
           · intro hc'; simp [State.setTrx, hc] at hc'
           · intro hc'; simp [State.setTrx, hc] at hc'
           · intro hc'; simp [State.setTrx, hc] at hc'
@@ -287,7 +307,7 @@ theorem inv_trx {s s' : State} {i : Nat} {a : TrxAct} (hI : Inv s) (h : s.step (
         obtain ⟨t', ht', rfl⟩ := h
         exact inv_trx_local hI ht ht' (by simp) (fun _ => by simpa using hc)
     · simp at h
-  | sndStart | rcvStart | first w | exit w | decoderStop =>
+  | sndStart | rcvStart | first w | exit w | decoderStop | cancel w =>
     simp only [State.step] at h
     split at h
     · rename_i t ht
@@ -318,25 +338,23 @@ theorem tptStep_done {t t' : Tpt} {a : TptAct} (h : tptStep false t a = some t')
     split at h
     · injection h with h; subst h; exact ⟨id, fun _ => by simp [Tpt.monQuiet]⟩
     · simp at h
-  | discard =>
+  | nstep =>
     simp only [tptStep] at h
-    split at h
-    · injection h with h; subst h; exact ⟨id, id⟩
-    · simp at h
+    repeat' split at h
+    all_goals (try (simp at h; done))
+    all_goals (injection h with h; subst h; exact ⟨id, id⟩)
 
 theorem tptStep_unstarted {live : Bool} {t t' : Tpt} {a : TptAct} (h : tptStep live t a = some t')
     (hu : t'.unstarted = false) : t.unstarted = false ∨ a = .iceStart ∨ a = .dtlsStart := by
   cases a with
   | iceStart => exact Or.inr (Or.inl rfl)
   | dtlsStart => exact Or.inr (Or.inr rfl)
-  | iceDone ok | dtlsUp | dtlsFail | pumpExit | monFirst | monExit | discard =>
+  | iceDone ok | dtlsUp | dtlsFail | pumpExit | monFirst | monExit | nstep =>
     left
     simp only [tptStep] at h
-    split at h
-    · rename_i hg
-      injection h with h; subst h
-      simp_all [Tpt.unstarted]
-    · simp at h
+    repeat' split at h
+    all_goals (try (simp at h; done))
+    all_goals (injection h with h; subst h; simp_all [Tpt.unstarted])
 
 theorem inv_tpt_local {s : State} {k : Nat} {t t' : Tpt} {a : TptAct} (hI : Inv s) (ht : s.tpts[k]? = some t)
     (h : tptStep s.liveConn t a = some t') (hr : a = .iceStart ∨ a = .dtlsStart → s.refd k = true) :
@@ -367,14 +385,18 @@ theorem inv_tpt {s s' : State} {k : Nat} {a : TptAct} (hI : Inv s) (h : s.step (
       obtain ⟨t', ht', rfl⟩ := h
       exact inv_autoTrigger (inv_tpt_local hI ht ht' (by simp))
     · simp at h
-  | discard =>
+  | nstep =>
     simp only [State.step] at h
     split at h
     · rename_i t ht
       split at h
       · simp only [Option.map_eq_some_iff] at h
         obtain ⟨t', ht', rfl⟩ := h
-        exact inv_tpt_local hI ht ht' (by simp)
+        have hI' := inv_tpt_local hI ht ht' (by simp)
+        unfold State.syncSet
+        split
+        · exact hI'
+        · exact inv_scalar hI' rfl rfl rfl rfl rfl rfl rfl rfl rfl rfl rfl (fun hc => (hI'.opn hc).2.2.1)
       · simp at h
     · simp at h
   | iceStart | dtlsStart =>
@@ -477,7 +499,7 @@ theorem inv_addTrx {s s' : State} {k : Nat} (hI : Inv s) (h : s.step (.addTrx k)
     obtain ⟨fT, fK, fS⟩ := open_facts hI hc
     obtain ⟨o1, o2, o3, -⟩ := hI.opn hc
     refine inv_config hI hc hc rfl o1 o2 o3 ?_ ?_ ?_
-    · exact forall_append fT ⟨wfTrx_init k, rfl, rfl, hk⟩
+    · exact forall_append fT ⟨wfTrx_init k, rfl, rfl, free_lt hk⟩
     · intro j t hj
       obtain ⟨a, b, c, d⟩ := fK j t hj
       refine ⟨a, b, c, fun hu => refd_mono (d hu) ?_ ?_⟩
@@ -500,7 +522,7 @@ theorem inv_addSctp {s s' : State} {k : Nat} (hI : Inv s) (h : s.step (.addSctp 
       obtain ⟨a, b, c, d⟩ := fK j t hj
       refine ⟨a, b, c, fun hu => refd_mono (d hu) (fun x hx => hx) ?_⟩
       intro sc hs; rw [hn] at hs; simp at hs
-    · intro sc hs; simp at hs; subst hs; exact ⟨rfl, hk⟩
+    · intro sc hs; simp at hs; subst hs; exact ⟨rfl, free_lt hk⟩
   · simp at h
 
 theorem inv_assignSctp {s s' : State} {k : Nat} (hI : Inv s) (h : s.step (.assignSctp k) = some s') : Inv s' := by
@@ -530,7 +552,7 @@ theorem inv_assignSctp {s s' : State} {k : Nat} (hI : Inv s) (h : s.step (.assig
             rw [hold] at hj; injection hj with hj; subst hj
             rw [hun] at hu; simp at hu
         · intro sc' hs'; simp at hs'; subst hs'
-          exact ⟨(fS sc hs).1, hk⟩
+          exact ⟨(fS sc hs).1, free_lt hk⟩
       · simp at h
     · simp at h
   · simp at h
